@@ -228,7 +228,10 @@ def run_dump(out, prop, tier, seed, only_slices=None):
             continue
         cfg = DUMP_CFG.format(nsea=NSEA[fmt], fmt=fmt, dom=dom, keep=keep)
         mc = cfg + 'INIT DInit\nNEXT DNext\nINVARIANT DTypeOK\n' + ''.join('INVARIANT %s\n' % f for f in FORMULAS) + 'INVARIANT Export\n'
-        res = tlc.run('MC_MibDump', 'g.cfg', files={'g.cfg': mc}, timeout=6000, deadlock=True)
+        res = tlc.run('MC_MibDump', 'g.cfg', files={'g.cfg': mc}, timeout=6000, deadlock=True, coverage=True)
+        cov = out.extra.setdefault('action_coverage', {})
+        for a, (d_, t_) in res.coverage.items():
+            cov[a] = cov.get(a, 0) + t_
         out.add_tlc(res, 'MibDump/' + label)
         scen = res.exports
         if not scen:
@@ -284,6 +287,9 @@ def run_dump(out, prop, tier, seed, only_slices=None):
                 out.add_drift('mibdump %s differs from MibDump.tla for %s: observed exit=%s proc=%s written=%s; model exit=%s proc=%s written=%s' % (
                     v['drift'], brief_world(w, fmt), obs['exit'], {p['name']: p['st'] for p in obs['proc']}, obs['written'],
                     v['mexit'], {p['name']: p['st'] for p in v['mproc']}, v['mfiles']))
+    never = [a for a in ('DArgs', 'DCompile', 'DIndex', 'DReport', 'DExit', 'Gen', 'Bor', 'BSea', 'Write', 'Decide') if out.extra.get('action_coverage', {}).get(a, 0) == 0]
+    if never and not only_slices:
+        out.machinery_errors.append('actions of MibDump never taken in this run (vacuous): %s' % never)
     if not only_slices:
         # the script always ends (report + exit, or the recorded crash): temporal property under the fair specification
         lcfg = DUMP_CFG.format(nsea=2, fmt='json', dom='Dom_live', keep='KeepAll') + 'SPECIFICATION DSpec\nPROPERTY DTermination\n'
